@@ -970,6 +970,15 @@ def _call_val(cx, fn, bb, t, st, reports):
         st.add(l.sub(at))
         _set_len(cx, fn, st, t["args"][0], at)
         return V_slice(l.sub(at))
+    if name == "drain" and len(a) > 1 and a[0][0] == "slice" and a[1][0] == "range":
+        # Vec::drain(lo..hi) panics unless lo <= hi <= len; afterwards the vector is shorter by hi - lo
+        l = a[0][1]
+        lo = a[1][1] if a[1][1] is not None else Lin.konst(0)
+        hi = a[1][2] if a[1][2] is not None else l
+        _oblige(cx, fn, bb, t, st, reports, "O4-drain", [hi.sub(lo), l.sub(hi)], "drain(%s .. %s) of a vector of length %s" % (cx.show(lo), cx.show(hi), cx.show(l)))
+        st.add(hi.sub(lo)); st.add(l.sub(hi))
+        _set_len(cx, fn, st, t["args"][0], l.sub(hi.sub(lo)))
+        return UNKNOWN
     if name == "truncate" and len(a) > 1 and a[0][0] == "slice" and a[1][0] == "int":
         _set_len(cx, fn, st, t["args"][0], a[1][1])
         return UNKNOWN
